@@ -102,3 +102,26 @@ CHECKS["C02"] = {
         {"variant": "tsan", "engine": "stress", "procs": 2, "rounds_quick": 1000, "rounds_thorough": 20000},
     ],
 }
+
+LOCKFREE_ASSUME = ["x86-TSO hardware: the TSO amplifier (stores weaker than seq_cst are delayed in a simulated store buffer) covers weakened stores; "
+                   "weakened loads/RMW orders are not observable on this hardware with this family",
+                   "real-time oracles use the acq_rel logical clock and are disabled in TSan builds"]
+
+CHECKS["C03"] = {
+    "src": "C03.cpp",
+    "level": "exploration",
+    "rule": "tiny rounds on lr_guarded<Cell>: 1-3 writers (1-3 modify calls appending a unique id; the functor opens a write window on the copy it "
+            "is given) and 1-4 readers using lock_shared / try_lock_shared(_for/_until), holding the handle across user points. Oracles: window "
+            "overlap per copy, handle view stable, snapshot is a prefix of the final log, per-reader monotone, no stale read / read from the "
+            "future (logical clock), final log = every id once in per-writer and real-time order, both copies equal at quiescence. Non-trivial: "
+            "a read and a modify overlapped in logical time; distinct = (program, schedule signature, observed snapshots).",
+    "assumptions": LOCKFREE_ASSUME,
+    "runs": [
+        {"variant": "plain", "engine": "serial", "procs": 5, "rounds_quick": 8000, "rounds_thorough": 150000},
+        {"variant": "plain", "engine": "stress", "procs": 3, "rounds_quick": 5000, "rounds_thorough": 100000},
+        {"variant": "plain", "engine": "stress", "tso": 1, "procs": 2, "rounds_quick": 4000, "rounds_thorough": 80000},
+        {"variant": "plain", "engine": "serial", "tso": 1, "procs": 2, "rounds_quick": 4000, "rounds_thorough": 80000},
+        {"variant": "asan", "engine": "stress", "procs": 2, "rounds_quick": 2000, "rounds_thorough": 40000},
+        {"variant": "tsan", "engine": "stress", "procs": 2, "rounds_quick": 1500, "rounds_thorough": 30000},
+    ],
+}
